@@ -9,7 +9,7 @@ d = json.load(open(sys.argv[1]))
 ctx = driver.Ctx(d['property'], 'quick')
 try:
     rr = ctx.replay(d['files'], d['pkgdir'], driver.MOD + '/' + d['pkgdir'], d['entry'], d['inputs'], params=d.get('params'))
-    print(json.dumps(rr, indent=1))
+    print(json.dumps(rr, indent=1)); print(ctx.notes)
     bad = rr and (d['label'] in rr.get('failed', []) or (d['label'].startswith('panic:') and rr.get('panic')))
     print('REPRODUCED' if bad else 'not reproduced')
     sys.exit(1 if bad else 0)
